@@ -126,7 +126,13 @@ pub fn run_socket(sc: &Value) -> Value {
         }
         let (got, closed) = read_for(&mut s, c["read_ms"].as_u64().unwrap_or(400));
         results.push(json!({"received": hex(&got), "closed_by_server": closed, "write_error": werr}));
-        if c["end"].as_str().unwrap_or("hold") == "close" {
+        if c["end"].as_str().unwrap_or("hold") == "reset" {
+            // abortive close: SO_LINGER 0 makes close() send RST
+            let sk = socket2::Socket::from(s);
+            let _ = sk.set_linger(Some(Duration::from_secs(0)));
+            drop(sk);
+            open.push(None);
+        } else if c["end"].as_str().unwrap_or("hold") == "close" {
             drop(s);
             open.push(None);
         } else {
